@@ -16,6 +16,12 @@ values (zeros, ties), and handed to the model as data, so nothing depends on the
   suite rescale  DeterministicActor.rescale_action itself, every activation, finite and infinite bounds
   suite macont   MADDPG / MATD3 Box: per-agent per-dimension bounds, noise, clamp, env-defined override
   suite pg       PPO / IPPO: evaluation-mode clip / scale_action of the recorded sample; apply_mask logits
+  suite plumbing MADDPG / MATD3 `get_action` (evaluation mode, stub actors with integer tables, discrete and Box) and
+                 IPPO `extract_action_masks` against the definitions GENERATED from the source (Gen/MaPlumbGen.lean,
+                 evaluated by `lake env lean`): agent ids that are not in lexicographic order, `infos` in shuffled key
+                 order, empty infos / unrelated keys, per-agent one-hot-complement masks (the preferred action is the one
+                 the agent's OWN mask forbids), env-defined actions for some (agent, env row) pairs with NaN / None
+                 placeholders, 1..3 env rows and the non-vectorised forms; final action dicts diffed exactly
 
 Oracle (independent of Lean): batch shape and `action_space.contains` (per row, cast to the space's
 dtype as the training loops hand rows to `env.step`) for every algorithm x action kind x observation
@@ -1478,6 +1484,396 @@ def run_cases(chk: Check, name: str, cases, sink=None) -> int:
     return flagged
 
 
+# ============================================================================= suite plumbing (infos -> agent / env row)
+#: agent ids whose order is NOT the lexicographic one; the two walkers are a homogeneous group
+PL_IDS = ["walker_1", "walker_0", "adv_0"]
+PL_DIMS = {"walker_1": 4, "walker_0": 4, "adv_0": 3}
+PL_BOX = {"walker_1": ([-4.0, -2.0], [4.0, 2.0]), "walker_0": ([-4.0, -2.0], [4.0, 2.0]), "adv_0": ([-1.0], [3.0])}
+PL_LEAN_PRE = """import Gen.MaPlumbGen
+open MaPlumbGen
+def amaxRow (r : List Int) (m : List Bool) : Int :=
+  (((r.zip m).zipIdx.foldl (fun (best : Option (Int × Nat)) (p : (Int × Bool) × Nat) =>
+      if p.1.2 then best else match best with
+        | none => some (p.1.1, p.2)
+        | some (v, i) => if p.1.1 > v then some (p.1.1, p.2) else some (v, i)) none).map (fun b => (b.2 : Int))).getD 0
+def amax (a : Arr Int) (m : Arr Bool) : Option (Arr Int) :=
+  match a, m with
+  | Arr.a2 rs, Arr.none => some (Arr.a1 (rs.map (fun r => amaxRow r (r.map (fun _ => false)))))
+  | Arr.a2 rs, Arr.a2 ms => if rs.length = ms.length then some (Arr.a1 ((rs.zip ms).map (fun p => amaxRow p.1 p.2))) else none
+  | Arr.a2 rs, Arr.a1 m1 => some (Arr.a1 (rs.map (fun r => amaxRow r m1)))
+  | _, _ => none
+def showArr : Arr Int → String
+  | Arr.none => "None" | Arr.num x => toString x | Arr.a1 xs => toString xs | Arr.a2 rs => toString rs
+def showD (d : PyDict (Arr Int)) : String := " ".intercalate (d.map (fun p => p.1 ++ "=" ++ showArr p.2))
+def showR (r : Option (PyDict (Arr Int) × Option (PyDict (Arr Int)))) : String :=
+  match r with
+  | none => "raise"
+  | some (c, none) => "cont " ++ showD c
+  | some (_, some d) => "disc " ++ showD d
+def showM (r : Option (PyDict (Slot (Arr Bool)))) : String :=
+  match r with
+  | none => "raise"
+  | some d => " ".intercalate (d.map (fun p => p.1 ++ "=" ++ (match p.2 with
+      | Slot.none => "None"
+      | Slot.tensor l => toString (l.map (fun (m : Arr Bool) => match m with
+          | Arr.a1 xs => toString (xs.map (fun (b : Bool) => if b then (1 : Nat) else 0))
+          | Arr.a2 rs => toString (rs.map (fun (r : List Bool) => r.map (fun (b : Bool) => if b then (1 : Nat) else 0)))
+          | _ => "?"))
+      | Slot.list _ => "?")))
+"""
+
+
+def plumb_agent(algo: str, kind: str):
+    from gymnasium import spaces
+
+    def make():
+        ag = _agents()
+        cls = ag.algo_class(algo)
+        kw = dict(net_config=copy.deepcopy(ag.default_net_config(algo, "vector")), batch_size=8, device="cpu", accelerator=None)
+        if algo == "IPPO":
+            kw.update(learn_step=8, update_epochs=2)
+        acts = [spaces.Discrete(PL_DIMS[a]) if kind == "disc" else box(*PL_BOX[a]) for a in PL_IDS]
+        ag.seed_all(0)
+        a = cls(observation_spaces=[ag.obs_space("vector") for _ in PL_IDS], action_spaces=acts, agent_ids=list(PL_IDS), **kw)
+        if algo != "IPPO":
+            for i in range(len(a.actors)):
+                if kind == "disc":
+                    a.actors[i].head_net = Table()
+                else:
+                    a.actors[i] = Table()
+        return a
+    return cached((algo, "plumb", kind), make)
+
+
+def _pl_infos(case):
+    """the `infos` dict of the case: key order, absent agents, empty / unrelated-key infos, masks, env-defined actions"""
+    kind, B, single = case["kind"], case["B"], bool(case.get("single"))
+    infos = {}
+    for aid in case["order"]:
+        e = case["entries"][aid]
+        info = {}
+        for key in e.get("keys", []):
+            if key == "action_mask":
+                m = [[0 if j == f else 1 for j in range(PL_DIMS[aid])] for f in e["mask"]]
+                info[key] = np.array(m[0] if single else m, dtype=np.int64)
+            elif key == "env_defined_actions":
+                v = e["eda"]
+                if v is None:
+                    info[key] = None
+                elif kind == "disc":
+                    info[key] = (None if v[0] is None else int(v[0])) if single else \
+                        np.array([np.nan if x is None else float(x) for x in v])
+                else:
+                    full = np.array([[np.nan if x is None else float(x) for x in row] for row in v], dtype=np.float64)
+                    info[key] = full[0] if single else full
+            else:
+                info[key] = 3
+        infos[aid] = info
+    return infos
+
+
+def _pl_lean_infos(case) -> str:
+    kind, single = case["kind"], bool(case.get("single"))
+
+    def b(x):
+        return "true" if x else "false"
+
+    def oi(x):
+        return "none" if x is None else f"some ({int(x)})"
+    items = []
+    for aid in case["order"]:
+        e = case["entries"][aid]
+        keys = e.get("keys", [])
+        mask, eda = "none", "Arr.none"
+        if "action_mask" in keys:
+            rows = ["[" + ", ".join(b(j != f) for j in range(PL_DIMS[aid])) + "]" for f in e["mask"]]
+            mask = f"some (Arr.a1 {rows[0]})" if single else "some (Arr.a2 [" + ", ".join(rows) + "])"
+        if "env_defined_actions" in keys and e["eda"] is not None:
+            v = e["eda"]
+            if kind == "disc":
+                eda = ("Arr.none" if v[0] is None else f"Arr.num ({oi(v[0])})") if single else \
+                    "Arr.a1 [" + ", ".join(oi(x) for x in v) + "]"
+            else:
+                rows = ["[" + ", ".join(oi(x) for x in row) + "]" for row in v]
+                eda = f"Arr.a1 {rows[0]}" if single else "Arr.a2 [" + ", ".join(rows) + "]"
+        ks = "[" + ", ".join(json.dumps(k) for k in keys) + "]"
+        items.append(f'({json.dumps(aid)}, (⟨true, {b(bool(keys))}, {ks}, {mask}, {eda}⟩ : Info Int))')
+    return "[" + ", ".join(items) + "]"
+
+
+def _pl_show(d) -> str:
+    return " ".join(f"{aid}={json.dumps(np.asarray(d[aid]).astype(np.int64).tolist())}" for aid in PL_IDS)
+
+
+MISSING_ENTRY = "C14-missing-info-entry-vectorised"
+ENV_ORDER = "C14-env-defined-actions-infos-order"
+
+
+def missing_entry_cfg(case):
+    """The configuration of the open finding C14-missing-info-entry-vectorised, decided from the INPUT alone:
+    'KeyError'   — a known agent has no entry in `infos` at all;
+    'IndexError' — env-defined actions are present (some listed info holds the key, not every info is empty), there are
+                   >= 2 env rows, and some listed agent's entry is missing / None (its placeholder has one row);
+    None         — any other input (a failure there is a violation, never this finding)."""
+    if case.get("algo") not in ("MADDPG", "MATD3"):
+        return None
+    if any(a not in case["order"] for a in PL_IDS):
+        return "KeyError"
+    ents = [case["entries"][a] for a in case["order"]]
+    present = any("env_defined_actions" in e.get("keys", []) for e in ents) and any(e.get("keys") for e in ents)
+    if present and case["B"] >= 2 and not case.get("single") and \
+            any("env_defined_actions" not in e.get("keys", []) or e.get("eda") is None for e in ents):
+        return "IndexError"
+    return None
+
+
+def plumb_one(case):
+    """-> (impl line, lean term, oracle problems, tags)"""
+    algo, kind, B, single = case["algo"], case["kind"], case["B"], bool(case.get("single"))
+    ag = plumb_agent(algo, kind)
+    infos = _pl_infos(case)
+    tags = [f"plumb-{algo}-{kind}", f"rows-{B}" + ("-single" if single else "")]
+    if case["order"] != [a for a in PL_IDS if a in case["order"]]:
+        tags.append("infos-reordered")
+    problems = []
+    ids = "[" + ", ".join(json.dumps(a) for a in PL_IDS) + "]"
+    if algo == "IPPO":
+        try:
+            masks = ag.extract_action_masks(infos)
+            impl = " ".join(f"{g}=" + ("None" if m is None else json.dumps(np.asarray(m).astype(np.int64).tolist()).replace('"', ""))
+                            for g, m in masks.items())
+        except Exception as e:
+            masks, impl = None, "raise"
+            tags.append(f"raised-{type(e).__name__}")
+        term = f'showM (IPPO.extract_action_masks (α := Int) {ids} ["walker", "adv"] {_pl_lean_infos(case)})'
+        if masks is not None:           # oracle: slot k of a group is the mask stored under the k-th agent of the group
+            for g, members in ag.homogeneous_agents.items():
+                m = masks[g]
+                want = [case["entries"][a].get("mask") if "action_mask" in case["entries"][a].get("keys", []) and a in case["order"]
+                        else None for a in members]
+                if m is None:
+                    if all(w is not None for w in want):
+                        problems.append(f"IPPO group {g}: every agent sent a mask but the group got None")
+                    continue
+                for k, a in enumerate(members):
+                    own = [[0 if j == f else 1 for j in range(PL_DIMS[a])] for f in (want[k] or [])]
+                    got = np.asarray(m[k]).astype(int).tolist()
+                    if (got if not single else [got]) != own:
+                        problems.append(f"IPPO group {g}: slot {k} (agent {a}) holds {got}, the agent's own mask is {own}")
+        return impl, term, problems, tags
+    # MADDPG / MATD3: evaluation mode, stub actors returning the prescribed integer tables
+    for aid, actor in zip(ag.agent_ids, ag.actors):
+        (actor.head_net if kind == "disc" else actor).table = torch.tensor(case["p"][aid], dtype=torch.float32)
+    obs = sample_obs(ag, algo, B, single, case.get("seed", 0))
+    seed_all(case.get("seed", 0))
+    try:
+        cont, disc = ag.get_action(obs, training=False, infos=infos)
+        out = disc if kind == "disc" else cont
+        impl = ("disc " if kind == "disc" else "cont ") + _pl_show(out)
+    except Exception as e:
+        out, impl = None, "raise"
+        tags.append(f"raised-{type(e).__name__}")
+    pol = "[" + ", ".join(f"({json.dumps(a)}, Arr.a2 [" + ", ".join("[" + ", ".join(str(int(x)) for x in r) + "]" for r in case["p"][a]) + "])"
+                          for a in PL_IDS) + "]"
+    dims = "[" + ", ".join(str(PL_DIMS[a] if kind == "disc" else len(PL_BOX[a][0])) for a in PL_IDS) + "]"
+    term = (f"showR ({algo}.get_action_plumbing amax {dims} {ids} {'true' if kind == 'disc' else 'false'} "
+            f"(some {_pl_lean_infos(case)}) {pol})")
+    expect_reject = None
+    if out is None:
+        cfg = missing_entry_cfg(case)
+        if cfg is not None and tags[-1] == f"raised-{cfg}":
+            tags.append("finding:" + MISSING_ENTRY)         # reported through chk.finding by run_plumbing
+        else:
+            problems.append(f"{algo}.get_action raised on infos {case['order']} ({tags[-1]})")
+        return impl, term, problems, tags
+    for aid in PL_IDS:
+        o = np.asarray(out[aid])
+        if o.shape[0] != B:
+            problems.append(f"{algo} {aid}: {B} env rows -> action shape {o.shape}")
+            continue
+        e = case["entries"][aid] if aid in case["order"] else {}
+        keys = e.get("keys", [])
+        for r in range(B):
+            row = o[r]
+            if not legal(ag.action_space[aid], row):
+                problems.append(f"{algo} {aid} env {r}: action {np.asarray(row).tolist()} is not in {ag.action_space[aid]}")
+                continue
+            env = e["eda"][r] if ("env_defined_actions" in keys and e.get("eda") is not None) else None
+            if kind == "disc":
+                a = int(np.asarray(row).reshape(-1)[0])
+                p = case["p"][aid][r]
+                if env is not None:
+                    tags.append("env-defined")
+                    if a != int(env):
+                        problems.append(f"{algo} {aid} env {r}: env-defined action {env} not returned (got {a}); infos order {case['order']}")
+                elif env is None:
+                    f = e["mask"][r] if "action_mask" in keys else None
+                    best = max(range(len(p)), key=lambda j: (p[j] if j != f else -10 ** 9, -j))
+                    if a != best:
+                        problems.append(f"{algo} {aid} env {r}: action {a}, but under the agent's OWN mask (forbidden: {f}) the best "
+                                        f"allowed action is {best}; infos order {case['order']}")
+            else:
+                envr = env if env is not None else [None] * len(case["p"][aid][r])
+                for j, x in enumerate(envr):
+                    want = x if x is not None else case["p"][aid][r][j]
+                    if x is not None:
+                        tags.append("env-defined")
+                    if float(np.asarray(row)[j]) != float(want):
+                        problems.append(f"{algo} {aid} env {r} dim {j}: {float(np.asarray(row)[j])} returned, expected "
+                                        f"{'the env-defined' if x is not None else 'the policy'} value {want}; infos order {case['order']}")
+    return impl, term, problems, tags
+
+
+def gen_plumb(rng: random.Random, tier: str):
+    cases = []
+    n = 14 if tier == "quick" else 80
+    for algo in ("MADDPG", "MATD3", "IPPO"):
+        for it in range(n if algo != "IPPO" else max(6, n // 2)):
+            kind = "disc" if (algo == "IPPO" or it % 3 != 2) else "cont"
+            single = it % 5 == 4
+            B = 1 if single else 1 + it % 3
+            order = list(PL_IDS)
+            rng.shuffle(order)
+            with_env = algo != "IPPO" and rng.random() < 0.7
+            mask_mode = rng.choice(["all", "all", "some", "none"])
+            entries, p = {}, {}
+            for k, aid in enumerate(PL_IDS):
+                A = PL_DIMS[aid]
+                lo, hi = PL_BOX[aid]
+                keys = []
+                forb = None
+                if kind == "disc":
+                    # the preferred action is the one the agent's OWN mask forbids; the forbidden index differs per agent
+                    forb = [(k + r + 1) % A for r in range(B)]
+                    p[aid] = [[7 if j == forb[r] else rng.choice([0, 1, 2, 2, 5]) for j in range(A)] for r in range(B)]
+                else:
+                    p[aid] = [[rng.randint(int(lo[j]), int(hi[j])) for j in range(len(lo))] for r in range(B)]
+                has_mask = kind == "disc" and (mask_mode == "all" or (mask_mode == "some" and rng.random() < 0.5))
+                if algo == "IPPO" and aid.startswith("walker"):
+                    has_mask = mask_mode != "none"          # all-or-none inside a homogeneous group
+                if has_mask:
+                    keys.append("action_mask")
+                eda = None
+                if with_env:
+                    if kind == "disc":
+                        eda = [rng.choice([j for j in range(A) if not (has_mask and j == forb[r])]) if rng.random() < 0.5 else None
+                               for r in range(B)]
+                    else:
+                        eda = [[rng.randint(int(lo[j]), int(hi[j])) if rng.random() < 0.5 else None for j in range(len(lo))]
+                               for r in range(B)]
+                    keys.append("env_defined_actions")
+                    if single and (all(x is None for x in eda) if kind == "disc" else False):
+                        eda = None                      # non-vectorised: None stands for "no env-defined action"
+                    elif single and kind == "cont" and rng.random() < 0.3:
+                        eda = None
+                if with_env and B == 1 and k > 0 and rng.random() < 0.35:
+                    # one env row: an agent may leave the entry out (its one-row placeholder fits); with more rows that is
+                    # the open finding C14-missing-info-entry-vectorised, which only the dedicated probes below exercise
+                    keys.remove("env_defined_actions")
+                    eda = None
+                if rng.random() < 0.3:
+                    keys.insert(rng.randrange(len(keys) + 1), "step_count")
+                entries[aid] = {"keys": keys, "mask": forb if has_mask else None, "eda": eda}
+            case = {"suite": "plumb", "algo": algo, "kind": kind, "B": B, "single": single, "order": order, "entries": entries,
+                    "p": p, "seed": rng.randrange(1 << 30)}
+            if missing_entry_cfg(case) is not None:
+                raise InfraError("C14 gen_plumb: a generated case is in the configuration of " + MISSING_ENTRY)
+            cases.append(case)
+    for algo in ("MADDPG", "MATD3"):
+        one = {"suite": "plumb", "algo": algo, "kind": "disc", "B": 1, "single": False, "seed": 5,
+               "p": {a: [[7 if j == 1 else 0 for j in range(PL_DIMS[a])]] for a in PL_IDS}}
+        # regression probe of the REPAIRED finding C14-env-defined-actions-infos-order: the first listed info is a dict
+        # without the "env_defined_actions" key, a later one holds it -> the env-defined action must be played
+        ent1 = {"walker_1": {"keys": ["action_mask"], "mask": [1], "eda": None},
+                "walker_0": {"keys": ["env_defined_actions"], "mask": None, "eda": [2]},
+                "adv_0": {"keys": ["env_defined_actions"], "mask": None, "eda": [None]}}
+        for order in (["walker_1", "walker_0", "adv_0"], ["adv_0", "walker_1", "walker_0"]):
+            cases.append(dict(one, order=order, entries=ent1, probe="env-first-info"))
+        # probes of the OPEN finding C14-missing-info-entry-vectorised (exactly its two configurations)
+        two = dict(one, B=2, p={a: [[7 if j == 1 else 0 for j in range(PL_DIMS[a])] for _ in range(2)] for a in PL_IDS})
+        ent2 = {"walker_1": {"keys": ["action_mask"], "mask": [1, 1], "eda": None},
+                "walker_0": {"keys": ["env_defined_actions"], "mask": None, "eda": [2, None]},
+                "adv_0": {"keys": ["env_defined_actions"], "mask": None, "eda": [None, None]}}
+        cases.append(dict(two, order=["walker_0", "adv_0", "walker_1"], entries=ent2, probe="missing-entry"))
+        ent3 = {a: {"keys": ["action_mask"], "mask": [1, 1], "eda": None} for a in PL_IDS}
+        cases.append(dict(two, order=["adv_0", "walker_1"], entries=ent3, probe="agent-absent"))
+    return cases
+
+
+def run_plumbing(chk: Check, cases, sink=None) -> int:
+    """real `get_action` / `extract_action_masks` against the definitions GENERATED from the source (evaluated by Lean)"""
+    import subprocess
+    import tempfile
+    from common import LEAN_DIR
+    if not cases:
+        return 0
+    results = [plumb_one(c) for c in cases]
+    text = PL_LEAN_PRE + "\n".join(f"#eval IO.println ({r[1]})" for r in results) + "\n"
+    model = None
+    with tempfile.NamedTemporaryFile("w", suffix=".lean", prefix="c14_plumb_", delete=False) as f:
+        f.write(text)
+        path = f.name
+    try:
+        pr = subprocess.run(["lake", "env", "lean", path], cwd=LEAN_DIR, capture_output=True, text=True, timeout=600)
+        lines = [ln for ln in pr.stdout.splitlines() if ln.strip()]
+        if pr.returncode == 0 and len(lines) == len(cases):
+            model = lines
+        else:
+            chk.notes.append("suite plumbing: lean/Gen/MaPlumbGen.lean could not be evaluated (see the gate problems); "
+                             "only the oracle was applied: " + (pr.stdout + pr.stderr).strip()[:300])
+    finally:
+        try:
+            import os
+            os.unlink(path)
+        except OSError:
+            pass
+    if model is None and not chk.gate.get("problems") and "error" not in (pr.stdout + pr.stderr):
+        raise InfraError("C14 suite plumbing: cannot evaluate Gen/MaPlumbGen.lean although the gate reported no problem: "
+                         + (pr.stdout + pr.stderr).strip()[:400])
+    # (a Lean error without a gate problem: the generated definitions changed their parameter list — the source reads other
+    #  attributes than before; the terms built here no longer fit, the oracle below still judges every case)
+    flagged = 0
+    known = 0
+    for i, (case, (impl, term, problems, tags)) in enumerate(zip(cases, results)):
+        m = model[i] if model is not None else None
+        diff = m is not None and m != impl
+        if "finding:" + MISSING_ENTRY in tags:
+            known += 1
+            if sink is None:
+                chk.finding(MISSING_ENTRY, f"{case['algo']}.get_action raised {tags[-2][7:]} on infos {case['order']} with "
+                            f"{case['B']} env rows ({missing_entry_cfg(case)} configuration); the generated model "
+                            + ("raises too" if m == "raise" else f"gives {m!r}"), {"case": case, "impl": impl, "model": m})
+        if case.get("probe") == "env-first-info" and sink is None and any("env-defined action" in q for q in problems):
+            # the repaired finding is back: the env-defined action of a later info is dropped again
+            chk.finding(ENV_ORDER, problems[0], {"case": case, "impl": impl, "model": m, "oracle_problems": problems})
+            flagged += 1
+            continue
+        if sink is None:
+            chk.case({k: v for k, v in case.items() if k != "seed"}, nontrivial=True, tags=["suite-plumbing"] + sorted(set(tags)),
+                     sample={"suite": "plumb", "algo": case["algo"], "order": case["order"], "impl": impl, "model": m})
+        if not diff and not problems:
+            continue
+        flagged += 1
+        if sink is not None:
+            sink.append((case, diff, problems))
+            continue
+        what = problems[0] if problems else f"suite plumbing: implementation and generated plumbing disagree: impl={impl!r} model={m!r}"
+        if not first_of_its_kind(chk, case, what):
+            continue
+        replay = {"case": case, "impl": impl, "model": m, "oracle_problems": problems,
+                  "correspondence": "harness/c14.py vs Gen/MaPlumbGen.lean", "theorems": chk.gate["theorems"]}
+        if problems:
+            chk.violation(what, replay)
+        else:
+            chk.violation(what + "; the property oracle holds on this case", replay, no_input=True)
+    if sink is None:
+        chk.suite("plumbing", len(cases), flagged)
+        if known:
+            chk.notes.append(f"suite plumbing: {known} case(s) in the configuration of {MISSING_ENTRY} raised and were reported "
+                             "through chk.finding")
+    return flagged
+
+
 # ============================================================================= oracle sweep (real networks)
 def sweep_spaces(algo: str, kind: str, rng: random.Random):
     from gymnasium import spaces
@@ -1922,10 +2318,22 @@ def pre_gate(chk: Check) -> None:
     (Props/C14.lean, `C14_source_translation_*`)."""
     import common
     import py2lean_action
+    import py2lean_maplumb
+    # both generated files are rewritten from the tree under test BEFORE either gate builds Props.C14 (which imports both):
+    # otherwise the first gate would check the theorems against a stale translation left by an earlier run on another tree
+    for tr, rel in ((py2lean_action, "Gen/ActionGen.lean"), (py2lean_maplumb, "Gen/MaPlumbGen.lean")):
+        try:
+            tr.write_if_changed(tr.translate(common.REPO)[0], common.LEAN_DIR / rel)
+        except tr.Unsupported:
+            pass                                    # reported by the gate below
     common.translation_gate(chk, py2lean_action, "Gen/ActionGen.lean", ["Gen.ActionGen", "Proofs.ActionGenEq", "Props.C14"],
                             "action-selection arithmetic of get_action of DQN / CQN / RainbowDQN / DDPG / TD3 / PPO, the "
                             "per-agent loop body of IPPO / MADDPG / MATD3, DeterministicActor.forward / rescale_action and "
                             "StochasticActor.scale_action")
+    common.translation_gate(chk, py2lean_maplumb, "Gen/MaPlumbGen.lean", ["Gen.MaPlumbGen", "Proofs.MaPlumbGenEq", "Props.C14"],
+                            "multi-agent mask / env-defined-action plumbing: key_in_nested_dict, extract_action_masks, "
+                            "extract_agent_masks, process_infos, disassemble_homogeneous_outputs and the statements of "
+                            "get_action around the per-agent loop of IPPO / MADDPG / MATD3")
 
 
 def run(chk: Check) -> None:
@@ -1954,7 +2362,7 @@ def run(chk: Check) -> None:
         c = json.loads(f.read_text())
         corpus.append(c.get("replay", c).get("case", c.get("replay", c)))
     sweep_corpus = [c for c in corpus if c.get("suite") == "sweep"]
-    run_cases(chk, "corpus", [c for c in corpus if c.get("suite") not in ("sweep", "history")])
+    run_cases(chk, "corpus", [c for c in corpus if c.get("suite") not in ("sweep", "history", "plumb")])
     if sweep_corpus:
         run_sweep(chk, sweep_corpus)
     # 2. generated suites
@@ -1963,6 +2371,7 @@ def run(chk: Check) -> None:
     run_cases(chk, "continuous-clip-rescale", gen_cont(rng, chk.tier))
     run_cases(chk, "multi-agent", gen_ma_multi(rng, chk.tier))
     run_cases(chk, "policy-gradient", gen_pg(rng, chk.tier))
+    run_plumbing(chk, [c for c in corpus if c.get("suite") == "plumb"] + gen_plumb(rng, chk.tier))
     # 3. property oracle on the real networks
     run_sweep(chk, gen_sweep(rng, chk.tier))
     # 4. the same oracle along histories: after clone / mutations of every kind / checkpoint round trips
@@ -2078,6 +2487,17 @@ def replay(chk: Check, path: str) -> int:
         if problems:
             print(f"VIOLATION property=C14 replay={path}")
             print(f"  -> {problems[0]}"[:600])
+            return 1
+        return 0
+    if case.get("suite") == "plumb":
+        sink: list = []
+        run_plumbing(chk, [case], sink)
+        print(json.dumps({"case": case, "flagged": [(d, p) for _, d, p in sink]}, indent=1, default=str))
+        if sink:
+            _, d, p = sink[0]
+            print(f"VIOLATION property=C14 replay={path}" + ("" if p else " no-failing-input-found"))
+            if p:
+                print(f"  -> {p[0]}"[:600])
             return 1
         return 0
     if case.get("suite") == "sweep":
